@@ -143,18 +143,21 @@ assert(idx + 1 == itv__.seq().len() ==> any_cached(rrs@, recs_g, *name, now)) by
         "contract": """    requires old(self).inner.wf(), old(self).inner.current_size < usize::MAX,
     ensures final(self).inner.wf(), final(self).inner.desired_size == old(self).inner.desired_size,""",
         "entry": "broadcast use axiom_rtd_eq, axiom_rtd_obeys;"},
-    "Cache::prune": {"props": ["C15"],
+    "Cache::prune": {"props": ["C15", "C05"],
         "contract": """    requires old(self).inner.wf(),
     ensures final(self).inner.wf(),
+        live_kept(old(self).inner.partitions@, final(self).inner.partitions@), // [C05:unexpired_records_survive_unless_their_name_is_evicted]
         r.0 == (old(self).inner.current_size > old(self).inner.desired_size), r.1 == final(self).inner.current_size,
         r.2 + r.3 == old(self).inner.current_size - final(self).inner.current_size,
         final(self).inner.current_size <= old(self).inner.desired_size, clean(final(self).inner),"""},
-    "PartitionedCache::remove_least_recently_used": {"props": ["C15"],
+    "PartitionedCache::remove_least_recently_used": {"props": ["C15", "C05"],
         "contract": """    requires old(self).wf(),
     ensures final(self).wf(), // [C15:cache_invariants_kept_by_eviction]
         final(self).desired_size == old(self).desired_size,
         r == old(self).current_size - final(self).current_size, // [C15:eviction_reports_true_count]
         clean(*old(self)) ==> clean(*final(self)), // [C15:eviction_removes_only]
+        live_kept(old(self).partitions@, final(self).partitions@), // [C05:eviction_drops_whole_names_and_nothing_else]
+        forall|k: K1| #[trigger] final(self).partitions@.contains_key(k) ==> old(self).partitions@.contains_key(k),
         (forall|k: K1| !old(self).partitions@.contains_key(k)) ==> r == 0 && final(self).partitions@ == old(self).partitions@,
         (exists|k: K1| old(self).partitions@.contains_key(k)) ==> r > 0 && exists|k: K1| #[trigger] old(self).partitions@.contains_key(k)
             && final(self).partitions@ == old(self).partitions@.remove(k) && r == old(self).partitions@[k].size
@@ -163,21 +166,33 @@ assert(idx + 1 == itv__.seq().len() ==> any_cached(rrs@, recs_g, *name, now)) by
         "anchors": [{"after": "if let Some(partition) = self.partitions.remove(&partition_key) {", "proof": """proof {
     lemma_map_sum_remove(old(self).partitions@, psize::<K2, V>(), partition_key);
     if clean(*old(self)) { lemma_clean_remove(old(self).partitions@, partition_key); }
-}"""}]},
+    lemma_live_kept_remove(old(self).partitions@, partition_key);
+}"""}],
+        "entry": "broadcast use vstd::std_specs::hash::group_hash_axioms; proof { lemma_live_kept_refl(old(self).partitions@); }"},
     "PartitionedCache::remove_expired_step": STEP_SPEC,
-    "PartitionedCache::remove_expired": {"props": ["C15"],
+    "PartitionedCache::remove_expired": {"props": ["C15", "C05"],
         "contract": """    requires old(self).wf(),
     ensures final(self).wf(), // [C05,C15:cache_invariants_kept_by_expiry]
         final(self).desired_size == old(self).desired_size,
         r == old(self).current_size - final(self).current_size, // [C15:expiry_reports_true_count]
-        clean(*final(self)), // [C15:no_expired_record_left]""",
+        clean(*final(self)), // [C15:no_expired_record_left]
+        live_kept(old(self).partitions@, final(self).partitions@) && live_names_kept(old(self).partitions@, final(self).partitions@), // [C05:unexpired_records_survive_expiry]
+        forall|k: K1| #[trigger] final(self).partitions@.contains_key(k) ==> old(self).partitions@.contains_key(k),""",
+        "entry": "proof { lemma_live_kept_refl(old(self).partitions@); }",
         "loops": {"0": {"kw": "loop", "spec": """            invariant
                 self.wf(), self.desired_size == old(self).desired_size,
                 pruned == old(self).current_size - self.current_size,
+                live_kept(old(self).partitions@, self.partitions@), live_names_kept(old(self).partitions@, self.partitions@),
+                forall|k: K1| #[trigger] self.partitions@.contains_key(k) ==> old(self).partitions@.contains_key(k),
             ensures
                 clean(*self),
-            decreases self.current_size,"""}}},
-    "PartitionedCache::prune": {"props": ["C15"],
+            decreases self.current_size,""", "entry": "let ghost mb__ = self.partitions@;"}},
+        "anchors": [{"after": "pruned += self.remove_expired_step();", "proof": """proof {
+    lemma_live_kept_step(mb__, self.partitions@);
+    lemma_live_kept_trans(old(self).partitions@, mb__, self.partitions@);
+    lemma_live_names_trans(old(self).partitions@, mb__, self.partitions@);
+}"""}]},
+    "PartitionedCache::prune": {"props": ["C15", "C05"],
         "contract": """    requires old(self).wf(),
     ensures final(self).wf(), // [C15:cache_invariants_kept_by_prune]
         r.0 == (old(self).current_size > old(self).desired_size), // [C15:prune_reports_overflow]
@@ -185,14 +200,17 @@ assert(idx + 1 == itv__.seq().len() ==> any_cached(rrs@, recs_g, *name, now)) by
         r.2 + r.3 == old(self).current_size - final(self).current_size, // [C15:prune_reports_true_counts]
         final(self).current_size <= old(self).desired_size, // [C15:no_more_than_configured_size]
         r.3 > 0 ==> old(self).current_size - r.2 > old(self).desired_size, // [C15:evicts_only_while_over_size]
-        clean(*final(self)), // [C15:no_expired_record_left]""",
+        clean(*final(self)), // [C15:no_expired_record_left]
+        live_kept(old(self).partitions@, final(self).partitions@), // [C05:unexpired_records_survive_unless_their_name_is_evicted]""",
         "loops": {"0": {"kw": "while", "spec": """            invariant
                 self.wf(), self.desired_size == old(self).desired_size,
+                live_kept(old(self).partitions@, self.partitions@), forall|k: K1| #[trigger] self.partitions@.contains_key(k) ==> old(self).partitions@.contains_key(k),
                 num_pruned == old(self).current_size - num_expired - self.current_size,
                 num_pruned > 0 ==> old(self).current_size - num_expired > old(self).desired_size,
                 clean(*self),
             decreases self.current_size,""",
-            "entry": "proof { if self.current_size > 0 { lemma_nonempty_if_positive(*self); } }"}},
+            "entry": "proof { if self.current_size > 0 { lemma_nonempty_if_positive(*self); } } let ghost mb__ = self.partitions@;"}},
+        "anchors": [{"after": "num_pruned += self.remove_least_recently_used();", "proof": "proof { lemma_live_kept_trans(old(self).partitions@, mb__, self.partitions@); }"}],
 },
     "PartitionedCache::upsert": {"props": ["C05", "C15"],
         "contract": """    requires old(self).wf(), old(self).current_size < usize::MAX, <V as PartialEqSpec>::obeys_eq_spec(), forall|a: V, b: V| #[trigger] a.eq_spec(&b) == (a == b),
